@@ -21,19 +21,19 @@ def add(pid, technique, text, note, ref):
 PBT = "property-based testing (Hypothesis)"
 ENTRIES = {
  "C01": (PBT + " + exhaustive small-scope enumeration vs brute-force DP all-pairs oracle",
-   "every string up to a length bound on 1-4 letter alphabets in one call (k=1..4) plus thousands of generated clonal-family repertoires, multiset equality with an independent Wagner-Fischer all-pairs oracle",
+   "every string up to a length bound on 1-4 letter alphabets in one call (k=1..4), thousands of generated clonal-family repertoires (multiset equality with an independent Wagner-Fischer all-pairs oracle) and planted collections of 600-2,500 (thorough: 50,000) sequences whose exact neighbour set is known by construction; atheris campaigns in the thorough tier",
    "own DP oracle (cross-checked with the Levenshtein C library at start-up); inputs passed as lists"),
  "C02": (PBT + " + exhaustive enumeration of multiplicity patterns vs exact Fraction pair counting; metamorphic relations",
    "all integer partitions of N<=10 (13 thorough) and all pattern pairs N1,N2<=5 (6), random samples / tables incl. adversarial separator rows, compared to literal pair counting in exact rationals, plus permutation / relabelling / pc_n / pc_joint identities",
    "cell text without '.' / '_', numeric columns integer typed without missing cells (stated domain); tolerance 1e-12"),
  "C03": (PBT + ", rule-based state machine for lookup histories, exhaustive small universes vs brute-force cross oracle",
-   "generated (reference, query) pairs through all four two-collection entry points and up to 12-step lookup histories against one SymdelDB + LookupDB, each answer compared with the oracle and with a fresh one-shot search; database state snapshotted",
+   "generated (reference, query) pairs through all four two-collection entry points (incl. the same object as both collections and 2,600-9,000 queries with a by-construction oracle) and up to 12-step lookup histories (Levenshtein / Hamming / custom interleaved) against one SymdelDB + LookupDB, each answer compared with the oracle and with a fresh one-shot search",
    "LookupDB cases restricted to amino-acid strings and k<=2 (its edit ball is exponential)"),
  "C04": (PBT + " + exhaustive 3-letter universes + radius-boundary family; three-way differential (engine / brute force / nearest_neighbor)",
-   "all strings <=L over ACD/CDE/AWY for k=1..3, boundary pairs at exactly sqrt(2)*k for k<=20 (40), random amino-acid repertoires with compression",
+   "all strings <=L over ACD/CDE/AWY for k=1..3, boundary pairs at exactly sqrt(2)*k for k<=20 (40), random amino-acid repertoires with compression, uniform-length frame-shift families, homopolymer runs of 62-257 residues, planted collections of up to 30,000 sequences",
    "hash_based radius 3 only on strings of length <= 2-3"),
  "C05": (PBT + " vs own distance + histogram oracle; enumerated sub-multisets for maxseqs",
-   "generated collections, second collections, TCR tables, bin edge vectors, pseudocounts, custom Metric subclass; counts compared exactly, normalised values at 1e-12; bins=0 == pc, distance-0 count, default metric choice, background alignment",
+   "generated collections (incl. distances >= 256, the same object as both collections, sizes 2^k-1 / 2^k / 2^k+1 up to 2,049), second collections, TCR tables in any column order, bin edge vectors, pseudocounts, custom Metric subclass; counts compared exactly, normalised values at 1e-12; bins=0 == pc, distance-0 count, default metric choice, background alignment",
    "sub-multiset oracle for maxseqs is independent of how the RNG is consumed"),
  "C06": ("exact rational enumeration of every count vector at generated rational points of the simplex (Hypothesis-drawn N, K, p)",
    "E[pc_n] == sum p^2 and E[varpc_n] == Var[pc] checked with == through the real functions on Fraction object arrays, for every composition of N into K parts; float path at 1e-10; stdpc relations",
@@ -51,7 +51,7 @@ ENTRIES = {
    "search cases x 3 output types x 8 containers (both collections) x 8 entry points against the brute-force triplets / dense matrix; 25 invalid-argument classes x 4 public engines must raise",
    "any exception type counts as rejection"),
  "C11": (PBT + " + enumerated (list size x n_cpu) grid; differential vs single-process run and brute force; validity predicate for max_returns",
-   "every chunking ratio incl. n_cpu > len(seqs) (grid 11x7 quick, 40x16 thorough), compression 1..25, default / hamming / custom modes, max_returns semantics",
+   "every chunking ratio incl. n_cpu > len(seqs) (grid 11x7 quick, 40x16 thorough), compressions of equal dimension on overlapping lists across consecutive calls, dense families of 150-229 mutually close sequences, default / hamming / custom (closure) modes, max_returns semantics",
    "fork start method; Pool.map ordering; OS-level worker interleavings not controlled"),
  "C12": ("exhaustive enumeration of all strings up to a length bound on 1-4 letter alphabets + " + PBT + " vs brute-force distance oracle",
    "levenshtein_neighbors / hamming_neighbors (all position subsets) / next_nearest_neighbors exhaustively, pair utilities and nndist_hamming on generated and enumerated inputs, multiset equality (each neighbour exactly once)",
